@@ -382,16 +382,32 @@ class _Generator(Generator):
                 else:
                     inner = '    {} |= {}u;'.format(present_mask, mask)
 
-                    if self.is_buffer_type(member):
-                        default_variable = canonical(member.name) + '_default'
+                    member_checker = self.get_member_checker(checker, member.name)
+
+                    if self.is_buffer_type(member) and \
+                            member_checker.minimum == member_checker.maximum:
+                        # A fixed size buffer has no length member.
+                        default_variable = self.get_default_variable(member)
+
+                        encode_lines += [
+                            'if (memcmp(src_p->{}{}.buf, {}, sizeof({})) != 0) {{'.format(
+                                self.location_inner('', '.'),
+                                canonical(member.name),
+                                default_variable,
+                                default_variable),
+                            inner,
+                            '}',
+                            ''
+                        ]
+                    elif self.is_buffer_type(member):
+                        default_variable = self.get_default_variable(member)
 
                         encode_lines += [
                             'if ((memcmp(src_p->{}{}.buf, {}, sizeof({})) != 0) ||'.format(
                                 self.location_inner('', '.'),
                                 canonical(member.name),
                                 default_variable,
-                                default_variable,
-                                self.format_default(member)),
+                                default_variable),
                             '    (src_p->{}{}.length != sizeof({}))) {{'.format(
                                 self.location_inner('', '.'),
                                 canonical(member.name),
